@@ -1225,3 +1225,91 @@ def replay_sequence_structure(model, obligation, mode, cfg):
         if len(seq) > 1 and any(h is None or h[0] != i or h[1] != len(seq) - 1 for i, h in enumerate(hdr)):
             return dict(confirmed=True, call=call, detail='headers %r' % (hdr[:4],))
     return dict(confirmed=False, detail='sequence structure as specified for the tried lengths')
+
+
+# ---------------------------------------------------------------- C16 replays
+def replay_escape(model, obligation):
+    from segno import helpers as H
+    bad = []
+    for cp in list(range(0, 0x250)):
+        c = chr(cp)
+        img = H._escape_vcard(c)
+        if '\r' in img or '\n' in img:
+            bad.append(('vcard', cp, img))
+        img = H._escape_mecard(c)
+        if (c == ';' and img != '\;') or (c == '\\' and img != '\\\\'):
+            bad.append(('mecard', cp, img))
+    return dict(confirmed=bool(bad), call='_escape_vcard(chr(c)) / _escape_mecard(chr(c)) for all c < 0x250', detail='(table, char, image): %r' % (bad[:4],))
+
+
+def replay_helper_escape(model, obligation, builder, param):
+    """call the real builder with a delimiter-carrying value for `param` and parse the payload back"""
+    from segno import helpers as H
+    from . import payloads as P
+    tried = []
+    for bad in ('a;b', 'a\\', 'x;S:evil', 'a\nb', 'a&b=c', 'a b'):
+        if builder == 'make_wifi_data':
+            kw = dict(ssid='net', password='pw', security='WPA')
+            kw[param] = bad
+            pl = H.make_wifi_data(**kw)
+            probs = [p for p in P.check_wifi(pl, **kw) if 'terminat' not in p.lower()]
+        elif builder == 'make_mecard_data':
+            kw = dict(name='Doe,John')
+            kw[param] = [bad, 'x'] if param in ('email', 'phone', 'videophone', 'url') else bad
+            pl = H.make_mecard_data(**kw)
+            probs = P.check_mecard(pl, key_aliases={'TEL-AV': 'TELAV', 'NOTE': 'MEMO'}, **kw)
+        elif builder == 'make_vcard_data':
+            kw = dict(name='Doe;John', displayname='John Doe')
+            kw[param] = bad
+            try:
+                pl = H.make_vcard_data(**kw)
+            except ValueError:
+                continue
+            probs = [p for p in P.check_vcard(pl, **kw) if 'line' in p.lower()]
+        elif builder == 'make_make_email_data':
+            kw = dict(to='me@example.org')
+            kw[param] = bad
+            pl = H.make_make_email_data(**kw)
+            probs = P.check_mailto(pl, **kw)
+        else:
+            return dict(confirmed=None, detail='unknown builder %r' % builder)
+        tried.append((bad, pl))
+        if probs:
+            return dict(confirmed=True, call='segno.helpers.%s(**%r)' % (builder, kw), detail='payload %r: %s' % (pl, probs[:2]))
+    return dict(confirmed=False, detail='payloads parse back: %r' % (tried[:2],))
+
+
+def replay_payload(model, obligation, builder, kw):
+    import ast
+    import decimal
+    from segno import helpers as H
+    from . import payloads as P
+    try:
+        k = ast.literal_eval(kw)
+    except Exception:
+        k = eval(kw, {'Decimal': decimal.Decimal})
+    try:
+        if builder == 'wifi':
+            pl = H.make_wifi_data(**k)
+            probs = [p for p in P.check_wifi(pl, **k) if 'terminat' not in p.lower()]
+        elif builder == 'mecard':
+            pl = H.make_mecard_data(**k)
+            probs = P.check_mecard(pl, key_aliases={'TEL-AV': 'TELAV', 'NOTE': 'MEMO'}, **k)
+        elif builder == 'vcard':
+            pl = H.make_vcard_data(**k)
+            probs = [p for p in P.check_vcard(pl, **k) if 'line' in p.lower()]
+        elif builder == 'geo':
+            pl = H.make_geo_data(**k)
+            probs = P.check_geo(pl, **k)
+        elif builder == 'mailto':
+            pl = H.make_make_email_data(**k)
+            probs = P.check_mailto(pl, **k)
+        else:
+            pl = H._make_epc_qr_data(**k)
+            probs = P.check_epc(pl, **k)
+    except ValueError as ex:
+        viol = P.epc_input_violations(**k) if builder == 'epc' else ['-']
+        return dict(confirmed=not viol, call='%s(**%s)' % (builder, kw[:200]), detail='refused: %s' % ex)
+    except Exception as ex:
+        return dict(confirmed=True, call='%s(**%s)' % (builder, kw[:200]), detail='raised %r' % (ex,))
+    return dict(confirmed=bool(probs), call='%s(**%s)' % (builder, kw[:200]), detail='payload %r: %s' % (pl if len(repr(pl)) < 200 else repr(pl)[:200], probs[:2]))
